@@ -14,7 +14,7 @@
      lwr_inv             the forward/backward invariants of the recursion at order p
      meq n               equality of n x n matrices over Q (the executable instance mat_ops n)  *)
 From Coq Require Import List Arith QArith Bool Lia Lqa Setoid Morphisms.
-From NT Require Import Sums LWR LWRP LWRPosDef.
+From NT Require Import Sums LWR LWRP LWRPosDef LWRScale.
 Import ListNotations.
 
 (* ---- the recursion solves the block Yule-Walker system, for every order and every ring ---- *)
@@ -196,6 +196,48 @@ Theorem C11_lwr_perm_equivariant_matrices :
     meq n sigma' (mperm n s sigma).
 Proof. exact lwr_perm_equivariant_mat_lemma. Qed.
 Print Assumptions C11_lwr_perm_equivariant_matrices.
+
+(* ---- the result does not depend on the physical units (no absolute magnitude enters) ---- *)
+(* multiplying every lag by a central invertible c (matrices: a non-zero scalar, e.g. the square of
+   a unit conversion) keeps every coefficient and multiplies the innovation covariance by c *)
+Theorem C11_lwr_scale_equivariant :
+  forall (R : Type) (O : rops R) (req : R -> R -> Prop), ring_laws O req ->
+  forall c ci : R,
+    (forall x, req (rmul O c x) (rmul O x c)) -> (forall x, req (rmul O ci x) (rmul O x ci)) ->
+    req (rmul O ci c) (r1 O) -> req (rtr O c) c ->
+    Proper (req ==> req) (rinv O) ->
+    (forall x, req (rmul O (rinv O x) x) (r1 O) -> req (rinv O (rmul O c x)) (rmul O ci (rinv O x))) ->
+  forall r P, length r = S P -> steps_ok O req r P ->
+    let '(a', sigma') := lwr_recursion O (map (rmul O c) r) in
+    let '(a, sigma) := lwr_recursion O r in
+    length a' = length a /\ (forall i, req (nth i a' (r0 O)) (nth i a (r0 O))) /\
+    req sigma' (rmul O c sigma).
+Proof. exact (@lwr_scale_equivariant_lemma). Qed.
+Print Assumptions C11_lwr_scale_equivariant.
+
+(* n x n matrices over Q, every lag multiplied by the scalar q <> 0 (mscal n q = q I) *)
+Theorem C11_lwr_scale_equivariant_matrices :
+  forall n (iv : mat -> mat) (q : Q), ~ q == 0 ->
+    Proper (meq n ==> meq n) iv ->
+    (forall x, meq n (mmul n (iv x) x) (mid n) ->
+               meq n (iv (mmul n (mscal n q) x)) (mmul n (mscal n (/ q)) (iv x))) ->
+  forall r P, length r = S P -> steps_ok (mat_ops_with n iv) (meq n) r P ->
+    let '(a', sigma') := lwr_recursion (mat_ops_with n iv) (map (mmul n (mscal n q)) r) in
+    let '(a, sigma) := lwr_recursion (mat_ops_with n iv) r in
+    length a' = length a /\
+    (forall i, meq n (nth i a' (mzero n)) (nth i a (mzero n))) /\
+    (forall i j, (i < n)%nat -> (j < n)%nat -> mget sigma' i j == q * mget sigma i j).
+Proof. exact lwr_scale_equivariant_mat_lemma. Qed.
+Print Assumptions C11_lwr_scale_equivariant_matrices.
+
+(* one channel: no hypothesis on the inverse is left *)
+Theorem C11_lwr_scale_equivariant_scalar :
+  forall (q : Q) r P, ~ q == 0 -> length r = S P -> steps_ok q_ops Qeq r P ->
+    let '(a', sigma') := lwr_recursion q_ops (map (rmul q_ops q) r) in
+    let '(a, sigma) := lwr_recursion q_ops r in
+    length a' = length a /\ (forall i, nth i a' 0 == nth i a 0) /\ sigma' == q * sigma.
+Proof. exact lwr_scale_equivariant_scalar_lemma. Qed.
+Print Assumptions C11_lwr_scale_equivariant_scalar.
 
 (* ---- one channel: the scalar estimator up to the documented sign ---- *)
 (* lwr: X(t) + sum a(i) X(t-i) = E(t);  AR_est_LD: x(n) = sum w(i) x(n-i) + e(n);  so a = -w *)
@@ -482,3 +524,17 @@ Qed.
 Lemma C11_ex_posdef_sigma :
   meqb 2 (snd (lwr_recursion (mat_ops 2) pd_r)) [[15#8; 0]; [0; 2]] = true.
 Proof. vm_compute. reflexivity. Qed.
+
+(* scale equivariance: with two channels and the adjugate inverse every hypothesis of
+   C11_lwr_scale_equivariant_matrices holds, for q = 2^-80 (volts^2 instead of microvolt^2 ...) *)
+Example C11_ex_scale_hypotheses_met :
+  let q := 1 # (2 ^ 80) in
+  ~ q == 0 /\ Proper (meq 2 ==> meq 2) minv2 /\
+  (forall x, meq 2 (mmul 2 (minv2 x) x) (mid 2) ->
+             meq 2 (minv2 (mmul 2 (mscal 2 q) x)) (mmul 2 (mscal 2 (/ q)) (minv2 x))) /\
+  length ex_r = 3%nat /\ steps_ok (mat_ops_with 2 minv2) (meq 2) ex_r 2.
+Proof.
+  intros q. assert (Hq : ~ q == 0) by (intro H; discriminate H).
+  split; [exact Hq|]. split; [exact minv2_proper|]. split; [intros x _; apply minv2_scale; exact Hq|].
+  destruct C11_ex_perm_hypotheses_met as (_ & _ & _ & L & Hok). split; assumption.
+Qed.
